@@ -79,7 +79,7 @@ Lemma registry_exact k t es :
 Proof.
   intros c Hq. pose proof (inv3_run k t es) as H. fold c in H.
   unfold inv3, quiescent, should_be_registered in *.
-  destruct (kd c), (at_ c), (writer c), (in_reg c), (closers c), (st c); cbn in *; congruence.
+  destruct (kd c), (at_ c), (writer c), (in_reg c), (closers c), (detached c), (st c); cbn in *; congruence.
 Qed.
 
 (* one-step facts, for EVERY state c (reachable or not) *)
